@@ -241,7 +241,7 @@ def go_test_overlay(files, run, timeout=600, tags=None, extra_env=None):
     env["GOCACHE"] = os.environ.get("GOCACHE", os.path.expanduser("~/.cache/go-build"))
     if extra_env:
         env.update(extra_env)
-    cmd = ["go", "test", "-vet=off", "-count=1", "-overlay", ov, "-run", run, "-timeout", "%ds" % timeout]
+    cmd = ["go", "test", "-v", "-vet=off", "-count=1", "-overlay", ov, "-run", run, "-timeout", "%ds" % timeout]
     if tags:
         cmd += ["-tags", tags]
     cmd += ["."]
